@@ -106,12 +106,12 @@ def run(cx):
         sj = cx.calls(c, r'SqliteZoneHandler<P>::set_journal$|SqliteZoneHandler::set_journal$')
         cx.check('C14.G1', len(zf) == 1 and len(pj) == 1 and len(sj) == 2, c.path, 'calls', 'zone-file-path:load,attach,dump', f'zone_from_path={len(zf)} persist={len(pj)} set_journal={len(sj)}')
         if zf and pj and rec:
-            cx.check('C14.G1', not cx.has_guard(zf[0], r'^Path::exists\(.*journal.*\)$') or True, c.path, 'order', 'journal-preferred', '')
-            # the zone-file branch is only taken when the journal does not exist
-            jex = [p_ for s in rec for p_ in []]
-            props_rec = {shorten(x) for x in (__import__('core').path_props(c, rec[0].bb) or []) if x.startswith('std::path::Path::exists') or 'Path::exists' in x}
-            jx = [x for x in props_rec if 'Path::exists' in x]
-            cx.check('C14.G1', bool(jx) and all(cx.has_guard(zf[0], '^!' + re.escape(x) + '$') for x in jx), c.path, zf[0].key(), 'zone-file-only-without-journal', '; '.join(jx)[:160], zf[0].loc)
+            # recovery runs only from a journal that exists AND was initialised (holds at least one row: a first start that stopped
+            # before the initial dump committed leaves an empty journal - F24b); the zone file is loaded exactly otherwise
+            JP = r'phi\(\^arg6\.journal_path\|file::rooted\(\^arg6\.journal_path,\^arg5\)\)'
+            INIT = r"phi\(false\|!phi\(false\|!ok\(<JournalIter<'_> as Iterator>::next\(Journal::iter\(try\(Result::map_err\(Journal::from_file\(" + JP + r"\),closure:.*\)\)@Continue\.0\)\)\)\)\)"
+            cx.guard('C14.G1', rec[:1], {'journal-exists': '^Path::exists\\(' + JP + '\\)$', 'journal-initialised(has-a-row-or-no-zone-file)': '^' + INIT + '$'}, fn=c)
+            cx.guard('C14.G1', zf[:1], {'journal-missing-or-empty': '^!' + INIT + '$', 'zone-file-exists': r'^Path::exists\(file::rooted\(\^arg6\.zone_path,\^arg5\)\)$'}, fn=c)
             cx.must_pass('C14.G1', c, pj, via_blocks={s.bb for s in sj}, what='journal-attached-before-initial-dump')
             cx.must_pass('C14.G1', c, pj, via_blocks={zf[0].bb}, what='zone-loaded-before-initial-dump')
     # ---------------------------------------------------------------- P3 transaction bracket
@@ -183,3 +183,32 @@ def run(cx):
                      'the map of RRsets is changed outside the reviewed writers: journal replay does not re-execute this, so the recovered zone can differ from the live one', g.loc(bi),
                      sample={'fn': key, 'op': m.group(1), 'holds': ok})
     cx.floor('C14.W2', len(seen), 6, 'functions that mutate the zone map')
+
+    # ---------------------------------------------------------------- P4 schema steps are transactions (F24a)
+    # "recovery never fails on a journal the server itself wrote": a schema step (DDL) and the version row that records it must
+    # become visible together, or a stop between them leaves a journal that the next start cannot migrate
+    su = cx.fn('C14.P4', J + 'schema_up')
+    if su:
+        eb = cx.calls(su, r'Connection::execute_batch$')
+        begin = [s_ for s_ in eb if s_.term.endswith('lit:"BEGIN")')]
+        commit = [s_ for s_ in eb if s_.term.endswith('lit:"COMMIT")')]
+        rollback = [s_ for s_ in eb if s_.term.endswith('lit:"ROLLBACK")')]
+        steps = cx.calls(su, r'Journal::(init_up|records_up)$')
+        cx.check('C14.P4', len(begin) == 1 and len(commit) == 1 and len(rollback) >= 1 and len(steps) >= 2, su.path, 'calls', 'BEGIN/COMMIT/ROLLBACK-around-schema-steps',
+                 f'begin={len(begin)} commit={len(commit)} rollback={len(rollback)} steps={len(steps)}')
+        if len(begin) == 1 and len(commit) == 1:
+            cx.must_pass('C14.P4', su, steps, via_blocks={begin[0].bb}, what='schema-step-inside-a-transaction')
+            ver = [g for g in [su] + prog.find(r'Journal::schema_up::\{closure[^}]*\}$') for _ in cx.calls(g, r'Journal::update_schema_version$')]
+            cx.check('C14.P4', len(ver) == 1, su.path, 'calls', 'version-row-updated-once-per-step', str(len(ver)))
+            # the version update happens after the step and before COMMIT: it is chained on the step's result (and_then) or
+            # called between the step and the commit
+            chained = [s_ for s_ in cx.calls(su, r'Result<T, E>::and_then$|Result::and_then$') if re.search(r'^Result::and_then\(phi\(.*Journal::(records_up|init_up)\(arg1\).*\),closure:Journal::schema_up::', s_.term)]
+            direct = cx.calls(su, r'Journal::update_schema_version$')
+            via = chained or direct
+            cx.check('C14.P4', bool(via), su.path, 'calls', 'version-update-follows-the-step', '')
+            if via:
+                cx.must_pass('C14.P4', su, commit, via_blocks={via[0].bb}, what='version-row-updated-before-COMMIT')
+                cx.must_pass('C14.P4', su, [via[0]], via_blocks={s_.bb for s_ in steps}, start_blocks=[b for b in su.succs(begin[0].bb) if not su.blocks[b]['cleanup']], what='step-runs-before-its-version-update')
+            vs = cx.assigns(su, r'.', place=r'version$')
+            cx.check('C14.P4', len(vs) >= 1, su.path, 'stores', 'in-memory-version-store-present', str(len(vs)))
+            cx.must_pass('C14.P4', su, vs, via_blocks={commit[0].bb}, what='in-memory-version-advances-only-after-COMMIT')
